@@ -296,6 +296,17 @@ def run_case(case, res):
                     mirror(dl, list(t.children), mapper_used, bad, ownkey=style == 2)
                     if shape(t) != src:
                         bad.append("to_dict_list changed the source")
+                    # a second call gives an equal, independent structure (no internal state is handed out)
+                    dl_b = attempt(lambda: t.to_dict_list(mapper=ser_f) if mapper_used else t.to_dict_list())
+                    if dl_b != dl:
+                        bad.append("to_dict_list() called twice gives different structures")
+                    elif isinstance(dl_b, list) and dl_b:
+                        dl_b[0]["data"] = "tampered"
+                        dl_b[0].pop("children", None)
+                        dl_c = attempt(lambda: t.to_dict_list(mapper=ser_f) if mapper_used else t.to_dict_list())
+                        if dl_c != dl:
+                            bad.append("editing a structure returned by to_dict_list() changed what the next call returns")
+                    frozen = json.dumps(dl, sort_keys=True, default=repr)
                     for variant in ("direct", "json"):
                         doc = dl if variant == "direct" else json.loads(json.dumps(dl))
                         t2 = attempt(lambda: Tree.from_dict(json.loads(json.dumps(doc)) if variant == "direct" and style == 2 else doc, mapper=deser_f) if mapper_used else Tree.from_dict(doc))
@@ -308,6 +319,8 @@ def run_case(case, res):
                         s2 = shape(t2)
                         if s2 != src:
                             bad.append(f"round trip ({variant}) differs: {s2} vs {src}")
+                        if variant == "direct" and style != 2 and json.dumps(dl, sort_keys=True, default=repr) != frozen:
+                            bad.append("from_dict() modified the structure it was given")
                         if t2.count != t.count or t2.count_unique != t.count_unique:
                             bad.append(f"round trip ({variant}): count {t2.count}/{t2.count_unique} vs {t.count}/{t.count_unique}")
                     # branch form: Node.to_dict / Node.from_dict
